@@ -50,6 +50,9 @@ type SimStore struct {
 	ErrAtRead     int
 	nReads        int
 	nCommits      int
+	// OnRead / OnCommit run inside the storage function (after the gate); they may panic.
+	OnRead   func(c cid.Cid)
+	OnCommit func(c cid.Cid)
 }
 
 func NewSimStore(w *World, node string) *SimStore {
@@ -130,6 +133,9 @@ func (s *SimStore) read(lc linking.LinkContext, l datamodel.Link) (io.Reader, er
 		s.w.Effect("store %s read %s -> PANIC", s.node, shortCid(c))
 		panic(fmt.Sprintf("sim: injected panic in storage read of %s", shortCid(c)))
 	}
+	if s.OnRead != nil {
+		s.OnRead(c)
+	}
 	s.mu.Lock()
 	b, ok := s.data[c]
 	s.Reads = append(s.Reads, ReadRec{Step: s.w.Step, Cid: c, Found: ok})
@@ -173,6 +179,9 @@ func (s *SimStore) write(lc linking.LinkContext) (io.Writer, linking.BlockWriteC
 			s.w.Fault("store-commit-panic")
 			s.w.Effect("store %s commit %s -> PANIC", s.node, shortCid(c))
 			panic(fmt.Sprintf("sim: injected panic in storage commit of %s", shortCid(c)))
+		}
+		if s.OnCommit != nil {
+			s.OnCommit(c)
 		}
 		b := append([]byte(nil), buf.Bytes()...)
 		s.mu.Lock()
